@@ -56,6 +56,19 @@ def run(ck):
                     ck.violation(dict(clause="reset-state", detector=name, observable="num_instances-before-refit"),
                                  dict(what="num_instances right after reset() (before re-fitting) differs from that of a newly constructed instance", got=int(d.num_instances), fresh=int(n_new), **detail))
                     continue
+                # every other public entry point answers as on a newly constructed instance too (streaming MMD has compare())
+                if hasattr(d, "compare"):
+                    def _outc(obj):
+                        try:
+                            r_ = obj.compare(X=ref)
+                            return "returned " + type(r_).__name__
+                        except Exception as e_:  # noqa: BLE001
+                            return type(e_).__name__
+                    oc_d, oc_new = _outc(d), _outc(cls(window_size=w))
+                    if oc_d != oc_new:
+                        ck.violation(dict(clause="reset-state", detector=name, observable="compare-before-refit"),
+                                     dict(what="compare() right after reset() (before re-fitting) does not answer as on a newly constructed instance", after_reset=oc_d, fresh=oc_new, **detail))
+                        continue
                 raised = False
                 try:
                     d.update(value=0.0)
